@@ -617,6 +617,11 @@ class OEvaluator(Evaluator):
                     self.poison.poison_stores(st)
 
     def _stmt(self, st):
+        if isinstance(st, ast.Assign) and len(st.targets) > 1:
+            v = self.ev(st.value)
+            for t in st.targets:
+                self._stmt(ast.Assign(targets=[t], value=_Lit(v), lineno=getattr(st, "lineno", 0)))
+            return
         if isinstance(st, (ast.Assign, ast.AnnAssign)) and (isinstance(st, ast.AnnAssign) or len(st.targets) == 1):
             t = st.target if isinstance(st, ast.AnnAssign) else st.targets[0]
             if isinstance(st, ast.AnnAssign) and st.value is None:
